@@ -739,7 +739,7 @@ class Collection(SerializableBase):
             max_len = getattr(self._len_spec, 'max_val', None)
             if max_len is not None and max_len < len(entries):
                 raise ValueError(f"{len(entries)} is wider than {max_len}")
-        elif self._length:
+        elif self._length is not None:
             if len(entries) != self._length:
                 raise ValueError(f"Need exactly {self._length} entries, got {len(entries)}")
 
@@ -754,7 +754,8 @@ class Collection(SerializableBase):
     def deserialize(self, reader: Reader, ctx):
         entries = []
         ctx = ParseContext(entries, parent=ctx)
-        if self._len_spec or self._length:
+        # A fixed length of 0 is still a fixed length, only `None` means greedy
+        if self._len_spec or self._length is not None:
             if self._len_spec:
                 size = reader.read(self._len_spec, ctx=ctx)
             else:
